@@ -123,8 +123,18 @@ def run(ctx):
     rep.assumptions = ["the three policy values are False, True and 'inline' ('inline' is truthy)"]
     rep.trusted = ['decision-table extractor']
     targets = []
+    site_names = {}
     for fq, kind in SITES.items():
-        fn = ctx.project.need_fn(fq)
+        if fq.endswith('iterfieldconvert.transform_value'):
+            # the per-value transformer of convert(): found by its shape, wherever it lives
+            from .common import value_transformer_site
+            fn, mapping = value_transformer_site(ctx)
+            if fn is None:
+                raise AnalysisError('anchor vanished: no function with an `except Exception` handler is bound / nested in '
+                                    'petl.transform.conversions:iterfieldconvert')
+            site_names[fn] = mapping
+        else:
+            fn = ctx.project.need_fn(fq)
         targets.append((fn, kind))
     cm = ctx.project.modules.get('petl._controls.' + CONTROL)
     if cm is not None:
@@ -136,6 +146,8 @@ def run(ctx):
     n_sites = 0
     for fn, kind in targets:
         pname = _policy_name(ctx, fn) if not fn.module.name.startswith('petl._controls') else 'failonerror'
+        if fn in site_names:
+            pname = site_names[fn].get(pname, pname)
         sites = _handler_sites(fn, pname)
         real = not fn.module.name.startswith('petl._controls')
         if not sites:
@@ -150,6 +162,8 @@ def run(ctx):
             if real:
                 n_sites += 1
             evname = _policy_name(ctx, fn, 'errorvalue') if real else 'errorvalue'
+            if fn in site_names:
+                evname = site_names[fn].get(evname, evname)
             _check_handler(rep, fn, kind, tr, h, pname, evname)
             _check_try_scope(ctx, rep, fn, tr, pname)
     ctx.floor('handler_sites', n_sites, 4)
@@ -353,12 +367,18 @@ def r192(ctx, rep):
                                  'default is %s, expected None: petl.config.failonerror is bypassed' % norm(d), fn.node)
 
 
+def _site_fns(ctx):
+    from .common import value_transformer_site
+    f, _ = value_transformer_site(ctx)
+    return {f} if f is not None else set()
+
+
 def r193(ctx, rep):
     """failonerror is only read inside the except-Exception handlers (iterator
     functions) or passed on unchanged."""
     for m in MODULES:
         for fn in ctx.functions([m]):
-            if not (fn.name.startswith('iter') or fn.qualname in ('iterfieldconvert.transform_value',)):
+            if not (fn.name.startswith('iter') or fn.qualname in ('iterfieldconvert.transform_value',) or fn in _site_fns(ctx)):
                 continue
             if 'failonerror' not in fn.params and not (fn.parent is not None and 'failonerror' in fn.parent.params):
                 continue
